@@ -35,6 +35,8 @@ type c06Params struct {
 	// Keys: number of distinct group keys (default 2); more groups than the server's message queue holds (10) make the
 	// final partial result a burst of messages
 	Keys int
+	// NoNL: the last line of every file has no terminating newline
+	NoNL bool
 }
 
 func (p c06Params) String() string {
@@ -45,6 +47,9 @@ func (p c06Params) String() string {
 	if p.Keys > 0 {
 		s += fmt.Sprintf(" keys=%d", p.Keys)
 	}
+	if p.NoNL {
+		s += " last-line-unterminated"
+	}
 	return s
 }
 
@@ -52,6 +57,9 @@ func c06Setup(p c06Params) (what string, perKey map[string][2]float64) {
 	dir := strings.NewReplacer(" ", "_", "[", "", "]", "").Replace(fmt.Sprintf("c06/%v", p.Files))
 	if p.Keys > 0 {
 		dir += fmt.Sprintf("-keys%d", p.Keys)
+	}
+	if p.NoNL {
+		dir += "-nonl"
 	}
 	perKey = map[string][2]float64{}
 	var paths []string
@@ -69,7 +77,11 @@ func c06Setup(p c06Params) (what string, perKey map[string][2]float64) {
 			e[1] += v * float64(p.Servers)
 			perKey[k] = e
 		}
-		paths = append(paths, WriteScratch(fmt.Sprintf("%s/f%d.log", dir, f), sb.String()))
+		content := sb.String()
+		if p.NoNL {
+			content = strings.TrimSuffix(content, "\n")
+		}
+		paths = append(paths, WriteScratch(fmt.Sprintf("%s/f%d.log", dir, f), content))
 	}
 	if p.Faulty != "" {
 		content := map[string]string{"emptygz": "", "badgz": "this is not gzip data\n", "cutgz": "\x1f\x8b\x08"}[p.Faulty]
@@ -275,6 +287,11 @@ func c06ParamSets(tier string) (ps []c06Params, d int) {
 			{Servers: 1, Files: []int{1, 1}, CatLimit: 1, Glob: true, Faulty: "badgz"},
 			{Servers: 1, Files: []int{1}, CatLimit: 2, Faulty: "cutgz"},
 			{Servers: 1, Files: []int{2}, CatLimit: 2, Interval: 1, ReadDelayMs: 500, D: 2, Long: true},
+			// files whose last line is unterminated on a slow disk: the end of the file is reached while the reader's
+			// periodic (3 s) check is due
+			{Servers: 1, Files: []int{2, 1}, CatLimit: 2, ReadDelayMs: 3100, NoNL: true},
+			{Servers: 2, Files: []int{3}, CatLimit: 1, ReadDelayMs: 1600, NoNL: true},
+			{Servers: 1, Files: []int{1, 2}, CatLimit: 1, Glob: true, NoNL: true},
 			{Servers: 1, Files: []int{2}, CatLimit: 2, D: 2},
 			{Servers: 1, Files: []int{1, 1}, CatLimit: 1, Glob: true, D: 2},
 		}, 1
@@ -304,7 +321,7 @@ func init() {
 		ID:    "C06",
 		Level: "model_checking",
 		Rule: "stateless exploration of all schedules within a deviation bound (quick 1, thorough 2) of a complete dmap run: the real MaprClient (cumulative, outfile), one in-process server per entry of the server list (Serverless connector, " +
-			"ServerHandler, map command, read commands behind the cat limiter, server Aggregate), the per-server client MaprHandlers, the GlobalGroupSet and the periodic reporter; 1-3 servers x 1-3 files x 0-2 lines (and files of 20-35 lines over 25-30 group keys: more groups than the server's message queue holds), cat limit 1-2, one glob or one command per file; " +
+			"ServerHandler, map command, read commands behind the cat limiter, server Aggregate), the per-server client MaprHandlers, the GlobalGroupSet and the periodic reporter; 1-3 servers x 1-3 files x 0-2 lines (and files of 20-35 lines over 25-30 group keys: more groups than the server's message queue holds), cat limit 1-2, one glob or one command per file, files whose last line is unterminated (also on a disk that takes 1.6-3.1 s per read(2), so that the end of the file coincides with the reader's periodic checks); " +
 			"oracle: final count and sum per key == totals over all files of all servers, exit status 0, termination before the horizon; plus the client side alone (two servers' handlers, periodic reporter, final report) under all schedules within 2 deviations: every partial result counted exactly once in the final result; distinct = distinct (scenario, result) pairs",
 		Assumptions: []string{
 			"code between two synchronisation operations is atomic (data-race freedom; checked by the free-running -race pass)",
